@@ -418,12 +418,16 @@ def process(args):
         f.update(kw)
         res["fails"].append(f)
 
-    rc, out, err = run_proc(hexe, script)
+    run_script = script
+    if any(l.startswith("enc ") and ("7" in l.split()[1:]) for l in sl):
+        # the Tight solid-area search looks at the server-format framebuffer: ask the harness for it too
+        run_script = script.replace("\nclient\n", "\nclient\nsraw 1\n", 1)
+    rc, out, err = run_proc(hexe, run_script)
     if rc != 0:
         fid = "tightpng-afterencbuf-overflow" if ("pngWriteData" in err and "overflow" in err) else None
         fail("crash", "harness exit %d" % rc, err, impl=[l[:200] for l in out[-10:]], finding=fid)
         return res
-    ops, ok = split_ops(script, out)
+    ops, ok = split_ops(run_script, out)
     if not ok:
         fail("crash", "harness output incomplete", err)
         return res
@@ -434,11 +438,16 @@ def process(args):
     codec = Codec(codec_exe)
     lean_lines, lean_expect = [], []
     intended, corre_max = 0, (48, 48)
-    for op, info in ops:
+    tight_lvl0, tight_jpeg, tight_last = False, False, False
+    for opi, (op, info) in enumerate(ops):
         t = op.split()
         if t[0] == "enc":
             real = [int(v) for v in t[1:] if int(v) in REAL_ENCS]
             intended = (real[0] if real else 0) & 0xFFFFFFFF
+            lv = [int(v) + 256 for v in t[1:] if -256 <= int(v) <= -247]
+            tight_lvl0 = bool(lv) and lv[-1] == 0
+            tight_jpeg = any(-32 <= int(v) <= -23 or -512 <= int(v) <= -412 for v in t[1:])
+            tight_last = any(int(v) == LASTRECT for v in t[1:])
         if t[0] == "cfg" and t[1] == "corre":
             corre_max = (int(t[2]), int(t[3]))
         if "bad-op" in info or "client-closed" in info or "handshake-failed" in info or "no-screen" in info:
@@ -516,6 +525,15 @@ def process(args):
             lean_lines.append("split corre %d %d " % corre_max + " ".join("%d %d %d %d" % s[:4] for s in snaps))
             lean_expect.append(("rects " + " ".join("%d,%d,%d,%d" % (r["x"], r["y"], r["w"], r["h"]) for r in rects),
                                 op, "CoRRE rectangle splitting", None))
+        if intended == 7 and not tight_jpeg and driver_ok:
+            sraws = [l.split() for l in info if l.startswith("sraw ")]
+            if len(sraws) == len(snaps) and sum(s_[2] * s_[3] for s_ in snaps) <= 400000:
+                want = []
+                for r in rects:
+                    want.append("%s:%d,%d,%d,%d" % ("f" if r.get("tkind") == "fill" else "s", r["x"], r["y"], r["w"], r["h"]))
+                for p_ in sraws:
+                    lean_lines.append("tightplan %d %d %s %s %s %s %s" % (1 if tight_last else 0, sb, p_[1], p_[2], p_[3], p_[4], p_[5]))
+                    lean_expect.append((None, op, "Tight rectangle plan (splitting + solid-area search)", ("plan", want, opi)))
         if intended in (6, 9) and driver_ok:
             lean_lines.append("split zlib " + " ".join("%d %d %d %d" % s[:4] for s in snaps))
             lean_expect.append(("rects " + " ".join("%d,%d,%d,%d" % (r["x"], r["y"], r["w"], r["h"]) for r in rects),
@@ -601,11 +619,16 @@ def process(args):
             lean_expect.append(("px 0 " + (masked(fmt, want).hex() or "-"), op, "spec-decode %s %dx%d" % (name, r["w"], r["h"]), fmt))
             res["lean_rects"] += 1
             iname = D.ENC_NAMES.get(intended, "?")
-            if name in MODELLED and (r["enc"] == intended or (r["enc"] == 0 and iname in ("rre", "corre"))):
-                lean_lines.append("model %d %d %d %s" % (intended, r["w"], r["h"], ref.hex() or "-"))
+            if name == "tight" and tight_jpeg:
+                pass
+            elif name in MODELLED and (r["enc"] == intended or (r["enc"] == 0 and iname in ("rre", "corre"))):
+                lean_lines.append("model %d %d %d %s%s" % (intended, r["w"], r["h"], ref.hex() or "-",
+                                                          (" %d" % (1 if tight_lvl0 else 0)) if name == "tight" else ""))
                 want_m = "bytes " + (model_payload(r).hex() or "-") if r["enc"] == intended else "raw"
                 lean_expect.append((want_m, op, "model %s %dx%d" % (iname, r["w"], r["h"]), None))
                 res["model_rects"] += 1
+                res["stats"].setdefault("model", {})
+                res["stats"]["model"][iname] = res["stats"]["model"].get(iname, 0) + 1
     if driver_ok and lean_lines:
         t_l = time.time()
         rc, out, err = run_proc(dexe, "\n".join(lean_lines) + "\n")
@@ -613,13 +636,34 @@ def process(args):
         if rc != 0 or len(out) != len(lean_expect):
             fail("exact", "Lean driver exit %d, %d/%d lines" % (rc, len(out), len(lean_expect)), err)
         else:
+            plan_got = []
             for got, (want, op, what, mf) in zip(out, lean_expect):
+                if isinstance(mf, tuple) and mf[0] == "plan":
+                    plan_got.append((got, mf[1], (mf[2], op), what))
+                    continue
                 if mf is not None and got.startswith("px 0 ") and got != want:
                     gh = got[5:]
                     got = "px 0 " + (masked(mf, b"" if gh == "-" else bytes.fromhex(gh)).hex() or "-")
                 if got != want:
                     fail("exact", "%s: Lean side differs from the implementation" % what, op,
                          impl=[want[:300]], model=[got[:300]])
+                    break
+            # Tight plans: the model's pieces of all region rectangles of one update, in order, must be the
+            # wire's rectangles; a piece sent by SendSubrect ('s') may still come out as a fill on the wire
+            byop = {}
+            for got, want, op, what in plan_got:
+                byop.setdefault(op, [[], want, what])[0].extend(got.split()[1:] if got.startswith("pieces") else ["?"])
+            res["stats"].setdefault("model", {})
+            res["stats"]["model"]["tight-plan(updates)"] = res["stats"]["model"].get("tight-plan(updates)", 0) + len(byop)
+            res["stats"]["model"]["tight-plan(fill pieces)"] = res["stats"]["model"].get("tight-plan(fill pieces)", 0) + \
+                sum(1 for v in byop.values() for g in v[0] if g.startswith("f"))
+            res["stats"]["model"]["tight-plan(pieces)"] = res["stats"]["model"].get("tight-plan(pieces)", 0) + \
+                sum(len(v[0]) for v in byop.values())
+            for (_, op), (gl, want, what) in byop.items():
+                okp = len(gl) == len(want) and all(g == w_ or (g[0] == "s" and w_[0] == "f" and g[1:] == w_[1:]) for g, w_ in zip(gl, want))
+                if not okp:
+                    fail("exact", "%s: Lean side differs from the implementation" % what, op,
+                         impl=[" ".join(want)[:400]], model=[" ".join(gl)[:400]])
                     break
     return res
 
@@ -628,7 +672,7 @@ def uses_ultra(script):
     return any(l.startswith("enc ") and " 9" in (l + " ").replace(" 9 ", " 9  ") and "9" in l.split()[1:] for l in script.splitlines())
 
 
-MODELLED = {"raw", "rre", "corre", "hextile", "zrle", "zlib"}   # encodings with a faithful Lean model (Enc/Server.lean)
+MODELLED = {"raw", "rre", "corre", "hextile", "zrle", "zlib", "tight"}   # encodings with a faithful Lean model (Enc/Server.lean)
 REAL_ENCS = {0, 2, 4, 5, 6, 7, 9, 16, 17, -260}
 
 
@@ -732,7 +776,7 @@ def run(ctx):
         if len(samples) < 3:
             samples.append({"script": sc.splitlines()[:40], "meta": meta})
     dist.update({"wire_rects_by_encoding": stats.get("enc", {}), "hextile_tile_flags": stats.get("hextile", {}),
-                 "zrle_tile_modes": stats.get("zrle", {}), "tight_subencodings": stats.get("tight", {}), "notes": stats.get("notes", {}),
+                 "zrle_tile_modes": stats.get("zrle", {}), "tight_subencodings": stats.get("tight", {}), "notes": stats.get("notes", {}), "rects_predicted_by_model_per_encoder": stats.get("model", {}),
                  "pixels_decoded": npix, "rects_spec_decoded_in_lean": lean_rects,
                  "rects_predicted_by_model": model_rects, "lossy_max_channel_error": lossy_err,
                  "wall_correspondence_s": round(time.time() - t0, 1)})
